@@ -23,6 +23,8 @@ def gen_rounds(seed, tier, run):
     out = []
     laws = []       # (index of first case, follow-up builder)
     shs = list(shapes(4, 3)) + [s for s in shapes(2, 5) if max(s) >= 4]
+    # long axes: a blocked copy / rotation must not lose a tail
+    shs += [[8], [17], [33], [64], [2, 17], [17, 2], [9, 8], [2, 9, 2]]
     for sh in shs:
         n = len(sh)
         a = arr(sh)
@@ -39,7 +41,7 @@ def gen_rounds(seed, tier, run):
         for ax in list(range(-n, n)):
             ln = sh[ax % n]
             for s in range(-3 * ln, 3 * ln + 1):
-                if n >= 3 and rng.random() < 0.5:
+                if (n >= 3 and rng.random() < 0.5) or (ln > 8 and rng.random() < 0.8):
                     continue
                 laws.append((len(out), "roll", [lst([-s]), lst([ax])]))
                 out.append(f"roll {a} {lst([s])} {lst([ax])}")
